@@ -107,29 +107,32 @@ theorem dot_offsetsT_ravel : ∀ (x D : Idx), x.length = D.length → dot x (off
   | x :: xs, d :: ds, h => by
     simp [offsetsT_cons, ravel, dot_offsetsT_ravel xs ds (by simpa using h)]
 
-/-! ### induction principles for the zipped-list predicates -/
+/-! ### inductive presentations of the zipped-list predicates (for `induction`) -/
 
-theorem SliceOK.ind {motive : Idx → Idx → Idx → Idx → Prop} (nil : motive [] [] [] [])
-    (cons : ∀ P ps l ls d ds s ss, 0 ≤ l → 1 ≤ d → 1 ≤ s → l + (d - 1) * s < P → SliceOK ps ls ds ss →
-      motive ps ls ds ss → motive (P :: ps) (l :: ls) (d :: ds) (s :: ss)) :
-    ∀ {P l d s : Idx}, SliceOK P l d s → motive P l d s := by
-  intro P l d s h
+inductive SliceOKI : Idx → Idx → Idx → Idx → Prop
+  | nil : SliceOKI [] [] [] []
+  | cons {P l d s : Int} {ps ls ds ss : Idx} (h0 : 0 ≤ l) (hd : 1 ≤ d) (hs : 1 ≤ s) (hlt : l + (d - 1) * s < P)
+      (ok : SliceOK ps ls ds ss) (rest : SliceOKI ps ls ds ss) : SliceOKI (P :: ps) (l :: ls) (d :: ds) (s :: ss)
+
+theorem SliceOK.toI {P l d s : Idx} (h : SliceOK P l d s) : SliceOKI P l d s := by
   fun_induction SliceOK P l d s with
-  | case1 => exact nil
+  | case1 => exact .nil
   | case2 P ps l ls d ds s ss ih =>
     obtain ⟨h1, h2, h3, h4, h5⟩ := h
-    exact cons _ _ _ _ _ _ _ _ h1 h2 h3 h4 h5 (ih h5)
+    exact .cons h1 h2 h3 h4 h5 (ih h5)
   | case3 => exact h.elim
 
-theorem InBounds.ind {motive : Idx → Idx → Prop} (nil : motive [] [])
-    (cons : ∀ i is d ds, 0 ≤ i → i < d → InBounds is ds → motive is ds → motive (i :: is) (d :: ds)) :
-    ∀ {i d : Idx}, InBounds i d → motive i d := by
-  intro i d h
+inductive InBoundsI : Idx → Idx → Prop
+  | nil : InBoundsI [] []
+  | cons {i d : Int} {is ds : Idx} (h0 : 0 ≤ i) (hlt : i < d) (ok : InBounds is ds) (rest : InBoundsI is ds) :
+      InBoundsI (i :: is) (d :: ds)
+
+theorem InBounds.toI {i d : Idx} (h : InBounds i d) : InBoundsI i d := by
   fun_induction InBounds i d with
-  | case1 => exact nil
+  | case1 => exact .nil
   | case2 i is d ds ih =>
     obtain ⟨h1, h2, h3⟩ := h
-    exact cons _ _ _ _ h1 h2 h3 (ih h3)
+    exact .cons h1 h2 h3 (ih h3)
   | case3 => exact h.elim
 
 @[simp] theorem SliceOK_nil : SliceOK [] [] [] [] = True := by simp [SliceOK]
@@ -144,13 +147,15 @@ theorem InBounds.ind {motive : Idx → Idx → Prop} (nil : motive [] [])
 
 theorem SliceOK.lengths {P l d s : Idx} (h : SliceOK P l d s) :
     l.length = P.length ∧ d.length = P.length ∧ s.length = P.length := by
-  induction h using SliceOK.ind with
+  have hI := h.toI; clear h
+  induction hI with
   | nil => simp
-  | cons P ps l ls d ds s ss _ _ _ _ _ ih => simp [ih.1, ih.2.1, ih.2.2]
+  | cons _ _ _ _ _ _ ih => simp [ih.1, ih.2.1, ih.2.2]
 
 theorem InBounds.length {i d : Idx} (h : InBounds i d) : i.length = d.length := by
-  induction h using InBounds.ind with
+  have hI := h.toI; clear h
+  induction hI with
   | nil => rfl
-  | cons i is d ds _ _ _ ih => simp [ih]
+  | cons _ _ _ _ ih => simp [ih]
 
 end OW.Nd
